@@ -269,7 +269,30 @@ impl GenericsAnalyzer {
                             let first_segment = type_path.path.segments.first().unwrap();
 
                             if &first_segment.ident == generic_param_ident {
-                                let where_paths = extract_trait_bounds(&predicate_type.bounds);
+                                let mut where_paths = extract_trait_bounds(&predicate_type.bounds);
+
+                                // `for<'a> D: Trait<'a>` is `D: for<'a> Trait<'a>`
+                                if let Some(bound_lifetimes) = &predicate_type.lifetimes {
+                                    for bound in where_paths.iter_mut() {
+                                        if let syn::TypeParamBound::Trait(trait_bound) = bound {
+                                            match &mut trait_bound.lifetimes {
+                                                Some(lifetimes) => {
+                                                    for (index, lifetime) in
+                                                        bound_lifetimes.lifetimes.iter().enumerate()
+                                                    {
+                                                        lifetimes
+                                                            .lifetimes
+                                                            .insert(index, lifetime.clone());
+                                                    }
+                                                }
+                                                None => {
+                                                    trait_bound.lifetimes =
+                                                        Some(bound_lifetimes.clone());
+                                                }
+                                            }
+                                        }
+                                    }
+                                }
 
                                 deps_trait_bounds.extend(where_paths);
                             }
